@@ -966,6 +966,19 @@ func (e *Engine) runPath(st *State) (end PathEnd) {
 	}
 }
 
+// runPending starts the oldest queued goroutine (lazy mode); when it returns,
+// the current instruction of the caller is executed again.
+func (e *Engine) runPending(st *State) bool {
+	if len(st.pending) == 0 {
+		return false
+	}
+	g := st.pending[0]
+	st.pending = append([]pendingGo(nil), st.pending[1:]...)
+	nf := e.pushFrame(st, g.fn.fn, g.args, g.fn.bind, nil)
+	nf.resume = true
+	return true
+}
+
 func (e *Engine) jump(fr *Frame, to *ssa.BasicBlock) {
 	fr.prev = fr.blk
 	fr.blk = to
@@ -1096,6 +1109,8 @@ func (e *Engine) exec(st *State, fr *Frame, in ssa.Instruction) bool {
 			} else if co.closed {
 				v = e.zero(in.X.Type().Underlying().(*types.Chan).Elem())
 				ok = False
+			} else if e.runPending(st) {
+				return false // a queued goroutine runs first; the receive is retried
 			} else {
 				abort("unsupported", "channel receive that would block in the sequentialised goroutine model")
 			}
@@ -1474,6 +1489,12 @@ func (e *Engine) exec(st *State, fr *Frame, in ssa.Instruction) bool {
 		}
 		if len(fv.fn.Blocks) == 0 && fv.fn.Pkg != nil {
 			fv.fn.Pkg.Build()
+		}
+		if st.goLazy {
+			// the other extreme schedule: the goroutine runs when the spawner
+			// waits for it (WaitGroup.Wait, a receive that would block)
+			st.pending = append(st.pending[:len(st.pending):len(st.pending)], pendingGo{fn: fv, args: args})
+			break
 		}
 		e.pushFrame(st, fv.fn, args, fv.bind, nil)
 		return false
